@@ -114,6 +114,14 @@ func (s *Store) ResetLog() {
 	s.mu.Unlock()
 }
 
+// StopLog turns call recording off (long read-only phases would grow the log).
+func (s *Store) StopLog() {
+	s.mu.Lock()
+	s.Log = nil
+	s.Logging = false
+	s.mu.Unlock()
+}
+
 func (s *Store) ClearFaults() {
 	s.mu.Lock()
 	s.FailLoadAt, s.FailStoreAt = nil, nil
